@@ -130,10 +130,13 @@ func C07(c *Ctx) {
 	// ---- R07.1
 	nEntries := 0
 	for _, spec := range []string{"applyBxhTransaction", "applyEthTransaction", "evmInterchain", "applyTransaction"} {
-		fn := c.fn("R07.1", execPrefix+spec)
-		if fn == nil {
+		c.fn("R07.1", execPrefix+spec) // anchors: these must exist
+	}
+	for _, fn := range c.P.ModuleFuncs(true) {
+		if core.PkgOf(fn) != "internal/executor" || fn.Parent() != nil {
 			continue
 		}
+		spec := fn.Name()
 		for _, b := range fn.Blocks {
 			for _, in := range b.Instrs {
 				name, ok := isVMEntry(in)
@@ -342,6 +345,9 @@ func (c *Ctx) checkRevert(fn *ssa.Function, call *ssa.Call, name string, depth i
 					}
 					lifted++
 					okc, _ := c.failPathReverts(caller, cl)
+					if (!okc || errNilEdges(caller, cl).Len() == 0) && c.errorRevertedUpstream(caller, cl, depth+1) {
+						continue // the caller hands the error on to a caller that reverts
+					}
 					if !okc || errNilEdges(caller, cl).Len() == 0 {
 						allOK = false
 						c.R.Bad("R07.1", key, pos, fmt.Sprintf("failure of %s is returned by %s (line %s) without RevertToSnapshot, and its caller %s (call at %s) does not revert on the error path either: writes made before the failure survive in a FAILED transaction", name, shortFn(fn), c.P.Pos(ret.Pos()), shortFn(caller), c.P.Pos(cl.Pos())))
@@ -361,4 +367,44 @@ func (c *Ctx) checkRevert(fn *ssa.Function, call *ssa.Call, name string, depth i
 		where = " (return at " + c.P.Pos(ret.Pos()) + ")"
 	}
 	c.R.Bad("R07.1", key, pos, "after VM entry "+name+" a failing path leaves "+shortFn(fn)+" without RevertToSnapshot"+where)
+}
+
+// errorRevertedUpstream: the failure of call (made in fn) is returned by fn to callers, all of which
+// revert on their error path or hand the error on in the same way (depth-bounded).
+func (c *Ctx) errorRevertedUpstream(fn *ssa.Function, call *ssa.Call, depth int) bool {
+	if depth > 3 {
+		return false
+	}
+	okHere, ret := c.failPathReverts(fn, call)
+	if okHere && errNilEdges(fn, call).Len() > 0 {
+		return true
+	}
+	// the failing path must leave fn through a return that can carry the error
+	hasErr := false
+	res := fn.Signature.Results()
+	for i := 0; i < res.Len(); i++ {
+		if res.At(i).Type().String() == "error" {
+			hasErr = true
+		}
+	}
+	if !hasErr || (ret == nil && okHere) {
+		return false
+	}
+	n := 0
+	for _, caller := range c.P.ModuleFuncs(true) {
+		if core.PkgOf(caller) != "internal/executor" {
+			continue
+		}
+		for _, cc := range core.Calls(caller) {
+			cl, isCall := cc.(*ssa.Call)
+			if !isCall || core.StaticCallee(cc) != fn {
+				continue
+			}
+			n++
+			if !c.errorRevertedUpstream(caller, cl, depth+1) {
+				return false
+			}
+		}
+	}
+	return n > 0
 }
